@@ -405,6 +405,21 @@ def run(ctx):
                     ctx.disagreements += 1
                     if len(broken) < 12:
                         broken.append(f"model != {BE_NAMES[i]} on: {req_line(c)}")
+            if c["op"] in ("tensor", "square", "tensor_add") and not outs[1].startswith("panic"):
+                # the real glwe_tensor_decrypt against the oracle's exact tensor phase of the same tensor
+                laws["real_tensor_decrypt=exact_tensor_phase"] = laws.get("real_tensor_decrypt=exact_tensor_phase", 0) + 1
+                if a.get("dec", "panic") == "panic" or a.get("dect") != outs[1]:
+                    broken.append(f"glwe_tensor_decrypt run failed or decrypted a different tensor: {req_line(c)}")
+                else:
+                    nn, rk = c["n"], c["rank"]
+                    skv = [int(x) for x in a["sk"].split(",")]
+                    sks = [skv[i * nn:(i + 1) * nn] for i in range(rk)]
+                    tens = parse_vec(a["dect"], nn)
+                    ph, bits = tensor_phase(tens, sks, c["bo"], rk + 1)
+                    dec = value_poly(parse_vec(a["dec"], nn)[0], c["bo"])
+                    if any((x - y) % (1 << bits) for x, y in zip(ph, dec)):
+                        ctx.oracle_failures += 1
+                        broken.append(f"glwe_tensor_decrypt differs from the exact tensor phase: {req_line(c)}")
             if c["op"] == "square":
                 laws["square=self-product"] = laws.get("square=self-product", 0) + 1
                 if model[(k, "self")] != model[(k, 1)]:
